@@ -47,5 +47,35 @@ def replay(path, prop):
             rej, devs = SP.judge_streams(ctx, sc, [tr], name='replay')
             print('verdict of the acceptor:', rej or 'accepted', devs or '')
             return 1 if rej else 0
+    # states of the generator machines: the replay file holds the state with the model's expectations; re-execute it
+    state_replays = {'bitstr': ('c14', 'bitstr_replay'), 'oid': ('c14', 'oid_replay'), 'char': ('c14', 'char_replay'),
+                     'named': ('c14', 'named_replay'), 'tags': ('c13', 'replay_state'), 'namedtypes': ('c09', 'check_state')}
+    if kind in state_replays:
+        import importlib
+        mod, fn = state_replays[kind]
+        f = getattr(importlib.import_module('harness.checks.' + mod), fn)
+        st = rp['state'] if 'state' in rp else {'cs': rp['comps'], 'want': rp['model']}
+        res = f(st)
+        divs = res[0] if isinstance(res, tuple) else res
+        print('re-executed against the current tree; divergences from the model:', divs or 'none')
+        return 1 if divs else 0
+    if kind == 'dispatch':
+        import os
+        import subprocess
+        import sys
+        with tlc.Scratch('replay') as sc:
+            inp, outp = sc.file('in.json'), sc.file('out.ndjson')
+            json.dump([[1, rp['rules'], rp['T'], rp['streaming'], rp['chunks']]], open(inp, 'w'))
+            p = subprocess.run([sys.executable, '-m', 'harness.sm_collect', inp, outp], env=dict(os.environ, PYASN1_VERIF_TRACE='1'),
+                               stdout=subprocess.PIPE, stderr=subprocess.STDOUT, text=True)
+            if p.returncode:
+                print(p.stdout[-1500:])
+                return 2
+            tr = [json.loads(x) for x in open(outp)]
+            print('re-recorded hook events (10-tuples):', tr[0]['ev'])
+            printed = tlc.run_traces(ctx, sc, 'Trace_DecoderSM', tr, 'replay', nev=lambda t: len(t['ev']) // 10)
+            rej = [q for q in printed if isinstance(q, list) and q and q[0] == 'REJECT']
+            print('verdict of the acceptor:', rej or 'accepted')
+            return 1 if rej else 0
     print('(this kind of replay file is descriptive: the case above is self-contained; re-run the check to judge it again)')
     return 0
